@@ -207,32 +207,30 @@ class Scheduler:
         if not cands:
             return
         cur.consec += 1
-        strat = self.strategy
-        k = self.tape.take(len(cands) + 1, (lambda rng: self._propose_preempt(strat, rng, cur, cands, where)) if strat else None)
-        if k:
-            self._handoff(cur, cands[k - 1])
-            if self.sigint_pending and cur.is_main:
-                self._deliver_sigint()
-
-    def _propose_preempt(self, strat, rng, cur, cands, where):
-        """Search mode only. Weak fairness first (a real OS scheduler does not starve a runnable
-        thread for ever; the liveness oracles rely on that), then the strategy."""
+        # weak fairness is part of the scheduler itself (search and replay alike, no tape entry):
+        # a real OS scheduler does not starve a runnable thread for ever, and the liveness oracles
+        # rely on that.  A starving thread is switched to and gets a time slice.
         if cur.quantum > 0:
-            # time slice granted by the fairness rule below: not pre-empted before it is used up
             cur.quantum -= 1
-            return 0
+            return
         lim = self.starve_limit
         worst = None
         steps = self.steps
-        for i, c in enumerate(cands):
+        for c in cands:
             w = steps - c.ready_since
             if w > lim and (worst is None or w > worst[0]):
-                worst = (w, i)
+                worst = (w, c)
         if worst is not None:
             self.probe("fairness-forced-switch")
-            cands[worst[1]].quantum = self.quantum_len
-            return worst[1] + 1
-        return strat.preempt(self, rng, cur, cands, where)
+            worst[1].quantum = self.quantum_len
+            self._handoff(cur, worst[1])
+        else:
+            strat = self.strategy
+            k = self.tape.take(len(cands) + 1, (lambda rng: strat.preempt(self, rng, cur, cands, where)) if strat else None)
+            if k:
+                self._handoff(cur, cands[k - 1])
+        if self.sigint_pending and cur.is_main:
+            self._deliver_sigint()
 
     def block(self, cur, on, deadline):
         """Park `cur` until woken or until the virtual deadline. Returns the wake reason."""
@@ -244,6 +242,7 @@ class Scheduler:
         if deadline is not None and deadline <= self.now:
             return "timeout"
         cur.state = BLOCKED
+        cur.quantum = 0
         cur.blocked_on = on
         cur.deadline = deadline
         cur.wake_reason = None
@@ -323,7 +322,7 @@ class Scheduler:
             stack = []
             fr = frames.get(ident)
             if fr is not None:
-                for fs in traceback.extract_stack(fr)[-14:]:
+                for fs in traceback.extract_stack(fr)[-30:]:
                     stack.append("%s:%d:%s" % (fs.filename.split("/")[-1], fs.lineno, fs.name))
             out.append({"sid": t.sid, "name": t.name, "state": t.state, "prio": t.prio, "consec": t.consec, "steps": t.steps, "on": (t.blocked_on if isinstance(t.blocked_on, str) else type(t.blocked_on).__name__), "deadline": t.deadline, "stack": stack})
         return out
